@@ -84,9 +84,13 @@ func main() {
 			if *thorough {
 				k, n = 4, 3000
 			}
-			cases = append(cases, names.ExhaustiveC11(r, k)...)
+			cases = append(cases, names.ExhaustiveC11(r, k, *thorough)...)
 			cases = append(cases, names.RandomC11(r, n)...)
-			cases = append(cases, names.ImportedC11(r, n)...)
+			ni := 0 // the random part of the imported stream runs in the thorough tier only
+			if *thorough {
+				ni = n
+			}
+			cases = append(cases, names.ImportedC11(r, ni)...)
 		case "C12":
 			n, m := 30, 300
 			if *thorough {
